@@ -1,6 +1,7 @@
 import Driver.Circ
 import Driver.BuilderOps
 import Driver.ArithOps
+import Driver.TypesCodec
 /-! gvdriver — the model side of the correspondence checks: one JSON case per line on stdin,
 one JSON result per line on stdout. Imports models only (no proofs, no Mathlib). -/
 open Lean GVD
@@ -12,6 +13,7 @@ def handle (case : Json) : Json :=
   | "builder_run" => builderRun case
   | "convert" => convertOp case
   | "arith" => arithOp case
+  | "literal_check" => literalCheck case
   | op => Json.mkObj [("error", s!"unknown op {op}")]
 
 partial def loop (h : IO.FS.Stream) (out : IO.FS.Stream) : IO Unit := do
